@@ -281,7 +281,11 @@ def size_rule(ctx, fm):
 
 
 def mmap_open_rule(ctx):
-    fv = ctx.need("C14.M", "ktio::mmap::mmap_file_for_writing")
+    mmap_open_rule_as(ctx, "C14.M")
+
+
+def mmap_open_rule_as(ctx, R):
+    fv = ctx.need(R, "ktio::mmap::mmap_file_for_writing")
     if fv is None:
         return
     sl = [n for n in fv.nodes if n.get("k") == "mcall" and cname(n).endswith("File::set_len")]
@@ -291,5 +295,5 @@ def mmap_open_rule(ctx):
     if ok:
         order = [n for n in fv.nodes if n is sl[0] or n is mp[0]]
         ok = order[0] is sl[0]
-    ctx.check("C14.M", "mmap_file_for_writing:set_len_then_map", ok, "file.set_len(size) precedes map_mut(&file)",
+    ctx.check(R, "mmap_file_for_writing:set_len_then_map", ok, "file.set_len(size) precedes map_mut(&file)",
               "the mapping is not created from the file after `set_len(size as u64)`", fv.fn["sp"])
